@@ -333,8 +333,11 @@ CLAIMED = {
         text='For ploidy 0, 1, 2 and both phasings, over all alleles in range: the int32 written by the real _tcall._convert_to_encoding (Python ints as 64-bit vectors with no-overflow obligations) is bit-for-bit the Call built by the real Scala Call0/Call1/Call2.apply (parsed and translated by vc/scvc.py, 32-bit JVM semantics), equals the specified packing phased | ploidy<<1 | (k(k+1)/2+j)<<3, neither side raises; '
         '_convert_from_encoding of that int32 rebuilds the same alleles and phasing; the engine reads back ploidy, phasing, representation and allele pair. '
         'Genotype.diploidGtIndex(j,k) = k(k+1)/2+j; index determines the pair (integer lemma); both cached tables hold the pair of every index; Genotype.allelePair dispatches table/closed form on the same index; hl.Call.__init__ orders unphased alleles. '
-        'The floating-point closed forms allele_pair_sqrt / allelePairSqrt are a BOUNDED stand-in (real functions evaluated at the first and last index of the rows; all rows in the thorough tier).',
-        note=COMMON_NOTE + 'The decoders use the closed forms through their contract (pair of the index), which is only covered by the bounded stand-in plus monotonicity of IEEE-754 operations - not counted as proved. Domain: k(k+1)/2+j < 2^29, k <= 32767 (haploid allele < 2^29); outside it the engine\'s own 32-bit arithmetic wraps. scvc\'s Scala subset semantics is part of the trusted base.',
+        'The floating-point closed forms allele_pair_sqrt / allelePairSqrt are a BOUNDED stand-in (real functions evaluated at the first and last index of the rows; all rows in the thorough tier). '
+        'Wave 4: the round trip is also stated with the real hl.Call - the decoded call, built by the real Call.__init__ from whatever the decoder passes on each path (with _should_freeze a free Boolean: set elements and dict keys included), EQUALS the packed call under the real Call.__eq__, where a list never equals a tuple; '
+        'the codec is a function of the 32 bits alone (AST obligation: the two _tcall methods and every module-level function they reach write nothing that outlives the invocation, carry no memoising decorator or mutable default, and read only module-level values that are bound once and never written); '
+        'the staged twin SCanonicalCallValue.forEachAllele / ploidy / isPhased (the decoder the generated code runs) is parsed from the real Scala text and executed by vc/scstaged.py on the engine\'s own Call0/1/2.apply values (BOUNDED: row boundaries, both phasings; no 32-bit operation may wrap), plus the AST obligation that every Int->Double conversion in it applies to the allele representation itself.',
+        note=COMMON_NOTE + 'The decoders use the closed forms through their contract (pair of the index), which is only covered by the bounded stand-in plus monotonicity of IEEE-754 operations - not counted as proved. Domain: k(k+1)/2+j < 2^29, k <= 32767 (haploid allele < 2^29); outside it the engine\'s own 32-bit arithmetic wraps. scvc\'s Scala subset semantics and scstaged\'s reading of the asm4s builder calls (memoize / newLocal / assign / if_ / invokeScalaObject / invokeStatic1, no numeric promotion) are part of the trusted base. The packed call is assumed to be built from a list of alleles (the documented parameter type); Call.__hash__ is not under contract (it hashes tuple(alleles), so it cannot tell the kinds apart). lgtToGT / unphase / containsAllele of the staged class are not under contract.',
         technique='symbolic execution of the real Python and the real Scala text into bit-vector terms (pyvc bv mode + scvc), equivalence and round-trip obligations by z3; integer lemma for uniqueness; bounded enumeration for the float closed form',
         design_ref='7/C34',
     ),
